@@ -205,6 +205,31 @@ def substitute(t: T, mapping: Dict[T, T], memo=None) -> T:
 # constructors with the few load/store simplifications rules rely on
 
 
+def _rank_of(t: T, depth: int = 0) -> Optional[int]:
+    """number of axes of an array term where the source fixes it: an einsum with an explicit output, sums / products /
+    differences of such, transposes, negation; None otherwise"""
+    if depth > 12 or not isinstance(t, T):
+        return None
+    if t.op == "call" and t.args[0].op == "name" and t.args[0].args[0].split(".")[-1] == "einsum" and len(t.args) >= 2 and \
+            t.args[1].op == "const" and isinstance(t.args[1].args[0], str) and "->" in t.args[1].args[0] and \
+            "." not in t.args[1].args[0]:
+        return len(t.args[1].args[0].split("->")[1].strip())
+    if t.op == "binop" and t.args[0] in ("+", "-", "*", "/"):
+        a, b = _rank_of(t.args[1], depth + 1), _rank_of(t.args[2], depth + 1)
+        if a is not None and b is not None:
+            return max(a, b)
+        if a is not None and isinstance(t.args[2], T) and t.args[2].op == "const":
+            return a
+        if b is not None and isinstance(t.args[1], T) and t.args[1].op == "const":
+            return b
+        return None
+    if t.op == "unop":
+        return _rank_of(t.args[1], depth + 1)
+    if t.op == "attr" and t.args[1] in ("T", "real", "imag"):
+        return _rank_of(t.args[0], depth + 1)
+    return None
+
+
 def getitem(base: T, idx: T) -> T:
     if base.op == "setitem" and base.args[1].op == "slice" and idx.op == "const" and isinstance(idx.args[0], int) and \
             not isinstance(idx.args[0], bool) and idx.args[0] >= 0:
@@ -269,6 +294,12 @@ def getitem(base: T, idx: T) -> T:
             all(a_.op == "kw" and a_.args[0] == "axis" and a_.args[1].op == "const" and a_.args[1].args[0] == 0
                 for a_ in base.args[2:]) and -len(base.args[1].args) <= idx.args[0] < len(base.args[1].args):
         return base.args[1].args[idx.args[0]]          # stack((a, b))[i] / array([a, b])[i] is the i-th stacked item
+    if base.op == "call" and base.args[0].op == "name" and base.args[0].args[0].split(".")[-1] == "broadcast_to" and \
+            base.args[0].args[0].split(".")[0] in ("jax", "numpy") and len(base.args) == 3 and idx.op == "const" and \
+            isinstance(idx.args[0], int) and not isinstance(idx.args[0], bool) and base.args[2].op in ("tuple", "list"):
+        r_ = _rank_of(base.args[1])
+        if r_ is not None and r_ == len(base.args[2].args) - 1:
+            return base.args[1]            # broadcast_to(X, (k,) + X.shape)[i] is X: a new leading axis of copies
     if idx.op == "call" and idx.args[0].op == "name" and idx.args[0].args[0].split(".")[-1] == "diag_indices" and \
             idx.args[0].args[0].split(".")[0] in ("jax", "numpy") and len(idx.args) == 2:
         return call(name(idx.args[0].args[0].rsplit(".", 1)[0] + ".diag"), base)     # M[diag_indices(n)] is diag(M)
@@ -285,6 +316,14 @@ def getitem(base: T, idx: T) -> T:
     if base.op == "binop" and base.args[0] in ("+", "-") and idx.op == "const" and isinstance(idx.args[0], int) and \
             not isinstance(idx.args[0], bool) and isinstance(base.args[1], T) and isinstance(base.args[2], T):
         a_, b_ = base.args[1], base.args[2]
+
+        def stacked_copies(x):
+            return x.op == "call" and x.args[0].op == "name" and x.args[0].args[0].split(".")[-1] == "broadcast_to" and \
+                len(x.args) == 3 and x.args[2].op in ("tuple", "list") and _rank_of(x.args[1]) is not None and \
+                _rank_of(x.args[1]) == len(x.args[2].args) - 1
+        if stacked_copies(a_) or stacked_copies(b_):
+            # (A +/- broadcast_to(X, (k,) + X.shape))[i]: the broadcast operand fixes the shape of the sum, item i of it is X
+            return mk("binop", base.args[0], getitem(a_, idx), getitem(b_, idx))
         def axis_shuffle_of(x, y):
             return x.op == "call" and x.args[0].op == "name" and x.args[0].args[0].split(".")[-1] in (
                 "swapaxes", "transpose", "moveaxis") and len(x.args) >= 2 and x.args[1] is y
